@@ -781,6 +781,9 @@ class _FuncEval:
 
     def s_Assign(self, s, p):
         v = self.ev(s.value, p)
+        if v[0] == "call" and v in self.summ.precise and all(isinstance(t, ast.Name) for t in s.targets):
+            # `x = self.helper(...)`: the call happens here, whether or not x is used afterwards
+            self.effect("call", None, None, v, p, s)
         for t in s.targets:
             self.assign(t, v, p, s)
 
@@ -851,8 +854,15 @@ class _FuncEval:
             self.conts[-1].append(p.fork())
         p.live = False
 
+    def _cond_calls(self, c, p, node):
+        """Package functions called while a condition is evaluated are calls made for their effects too."""
+        for x in subterms(c):
+            if x[0] == "call" and x in self.summ.precise:
+                self.effect("call", None, None, x, p, node)
+
     def s_If(self, s, p):
         c = self.ev(s.test, p)
+        self._cond_calls(c, p, s)
         a = p.fork()
         a.pc = p.pc + literals(c)
         b = p.fork()
@@ -1352,6 +1362,7 @@ def _inline(te: "TermEval", func: FuncInfo, depth: int, stack: tuple, stop) -> S
     out.precise = set(base.precise)
     out.falls_through, out.fall_pc, out.final_env = base.falls_through, base.fall_pc, base.final_env
     memo: dict = {}
+    hoisted: set = set()   # call terms whose effects were already placed (a value bound to a local and used later)
 
     def callee_of(c):
         tg = base.calls.get(c) or out.calls.get(c)
@@ -1412,8 +1423,9 @@ def _inline(te: "TermEval", func: FuncInfo, depth: int, stack: tuple, stop) -> S
                 amap = dict(amap)
                 for n, v in base.final_env.items():
                     amap.setdefault("<free>" + n, v)
-            for ce in cs.effects:
+            for ce in (cs.effects if x not in hoisted else ()):
                 sink.append(_subst_effect(ce, amap, pc, ctx))
+            hoisted.add(x)
             for k, v in cs.calls.items():
                 k2 = substitute(k, amap)
                 out.calls.setdefault(k2, v)
@@ -1524,10 +1536,10 @@ def _inline(te: "TermEval", func: FuncInfo, depth: int, stack: tuple, stop) -> S
     out.effects = fused
     for pc, t, n in base.returns:
         sink = []
-        out.returns.append((pc, expand(t, pc, (), sink), n))
+        out.returns.append((expand_pc(pc, ())[0], expand(t, pc, (), sink), n))
         out.effects.extend(sink)
     for pc, t, n in base.raises:
-        out.raises.append((pc, t, n))
+        out.raises.append((expand_pc(pc, ())[0], t, n))
     for pc, t, n, ctx in base.yields:
         sink = []
         out.yields.append((pc, expand(t, pc, ctx, sink), n, ctx))
@@ -1631,3 +1643,18 @@ def exc_name(t) -> Optional[str]:
 
 def mentions(t, pred) -> bool:
     return contains(t, pred)
+
+
+def same_call(te: "TermEval", summ: Summary, c1, c2) -> bool:
+    """Are two call terms the same call (same callee and receiver, same arguments whether passed by position or by
+    keyword)?"""
+    if c1 == c2:
+        return True
+    if c1[0] != "call" or c2[0] != "call" or c1[1] != c2[1]:
+        return False
+    t1, t2 = summ.calls.get(c1), summ.calls.get(c2)
+    g = (t1 or t2 or [None])[0]
+    if g is None or (t1 and t2 and t1 != t2):
+        return False
+    a1, a2 = te._bind_args(g, c1), te._bind_args(g, c2)
+    return a1 is not None and a1 == a2
